@@ -125,6 +125,10 @@ class BuildStep(BaseCommand):
 
         if not isiterable(type):
             type = repeat(type, len(name))
+        else:
+            type = listify(type)
+            if len(type) != len(name):
+                raise ValueError('expected one type per output')
 
         outputs = [self._make_outputs(*i) for i in zip(name, type)]
 
